@@ -19,6 +19,7 @@ pub fn check_lookups(ctx: &mut Ctx, out: &mut Outcome, what: &str, o: &Ontology,
 
 fn check_lookups_inner(ctx: &mut Ctx, out: &mut Outcome, what: &str, o: &Ontology, f: &FactSet, r: &mut Prng, full_sweep: bool) {
     let names: BTreeMap<u32, &str> = f.terms.iter().map(|t| (t.id, t.name.as_str())).collect();
+    let flags: BTreeMap<u32, (bool, Option<u32>)> = f.terms.iter().map(|t| (t.id, (t.obsolete, t.replacement))).collect();
     let mut probe: BTreeSet<u32> = BTreeSet::new();
     for &id in names.keys() {
         probe.insert(id);
@@ -37,17 +38,22 @@ fn check_lookups_inner(ctx: &mut Ctx, out: &mut Outcome, what: &str, o: &Ontolog
     }
     ctx.counters.add("lookup.term_probes", probe.len() as u64);
     for id in probe {
-        let got = crate::obs::guarded(|| o.hpo(id).map(|t| (t.id().as_u32(), t.name().to_string())));
+        let got = crate::obs::guarded(|| o.hpo(id).map(|t| (t.id().as_u32(), t.name().to_string(), t.is_obsolete(), t.replacement_id().map(|x| x.as_u32()))));
         match got {
             Err(p) => out.violate(P, "lookup-panics", format!("{what}: hpo({id}) panicked: {p}")),
             Ok(got) => match (names.get(&id), got) {
-                (Some(n), Some((gid, gname))) => {
+                (Some(n), Some((gid, gname, gobs, grepl))) => {
+                    // "the data it was added with": name, obsolete flag and replacement id of the (projected) fact
+                    let flags = flags.get(&id).copied().unwrap_or((false, None));
+                    if (gobs, grepl) != flags {
+                        out.violate(P, "wrong-payload", format!("{what}: hpo({id}) returned obsolete/replacement {gobs}/{grepl:?}, added as {}/{:?}", flags.0, flags.1));
+                    }
                     if gid != id || gname != *n {
                         out.violate(P, "wrong-payload", format!("{what}: hpo({id}) returned term {gid} {gname:?}, added as {n:?}"));
                     }
                 }
                 (Some(_), None) => out.violate(P, "lookup-false-negative", format!("{what}: hpo({id}) is None but the term was added")),
-                (None, Some((gid, gname))) => out.violate(P, "lookup-false-positive", format!("{what}: hpo({id}) returned term {gid} {gname:?} which was never added")),
+                (None, Some((gid, gname, _, _))) => out.violate(P, "lookup-false-positive", format!("{what}: hpo({id}) returned term {gid} {gname:?} which was never added")),
                 (None, None) => {}
             },
         }
